@@ -48,7 +48,7 @@ def exInit : LState Nat := init loadI (Load.init 1 (some 2)) 1 0 (some 4) exIds
 def exCheck (p : LState Nat × List Nat) : Bool :=
   p.2.isEmpty && Ctl.sessionFinished p.1.ctl && p.1.ctl.shouldstop.isNone && p.1.ctl.summary.isNone &&
     (p.1.ctl.sched.collection == some [10, 11, 12]) && (p.1.ctl.failedNodes == 1) &&
-    (p.1.wk.flatMap doneIdx == [2, 1])
+    (p.1.wk.flatMap doneIdx == [2, 1]) && (crashIds p.1.ctl.pubs == [10]) && (rqIds p.1.ctl.pubs == [])
 
 theorem exRun : (runW exIds exInit [] exSteps).map exCheck = some true := by decide +kernel
 
@@ -56,7 +56,7 @@ theorem exRun : (runW exIds exInit [] exSteps).map exCheck = some true := by dec
     tests 1 and 2 -/
 example : ∃ (st : LState Nat) (g : Ghost), ReachB exIds exInit st [] g ∧ st.ctl.sched.collection = some [10, 11, 12] ∧
     Ctl.sessionFinished st.ctl = true ∧ st.ctl.shouldstop = none ∧ st.ctl.summary = none ∧ st.ctl.failedNodes = 1 ∧
-    st.wk.flatMap doneIdx = [2, 1] := by
+    st.wk.flatMap doneIdx = [2, 1] ∧ crashIds st.ctl.pubs = [10] ∧ rqIds st.ctl.pubs = [] := by
   have h := exRun
   cases hr : runW exIds exInit [] exSteps with
   | none => rw [hr] at h; cases h
@@ -65,10 +65,10 @@ example : ∃ (st : LState Nat) (g : Ghost), ReachB exIds exInit st [] g ∧ st.
     rw [hr] at h
     simp only [Option.map_some, Option.some.injEq, exCheck, Bool.and_eq_true, List.isEmpty_iff, Option.isNone_iff_eq_none,
       beq_iff_eq] at h
-    obtain ⟨⟨⟨⟨⟨⟨hW, h1⟩, h2⟩, h3⟩, h4⟩, h5⟩, h6⟩ := h
+    obtain ⟨⟨⟨⟨⟨⟨⟨⟨hW, h1⟩, h2⟩, h3⟩, h4⟩, h5⟩, h6⟩, h7⟩, h8⟩ := h
     subst hW
     have hg := runW_reach exIds exInit exSteps exInit st [] [] ReachG.init hr
-    obtain ⟨g, hb⟩ := hg.reachB
-    exact ⟨st, g, hb, h4, h1, h2, h3, h5, h6⟩
+    obtain ⟨g, hb⟩ := reachG_reachB 1 0 (some 2) (some 4) exIds hg
+    exact ⟨st, g, hb, h4, h1, h2, h3, h5, h6, h7, h8⟩
 
 end Xdist.Sys
